@@ -1,5 +1,6 @@
 SPECIFICATION Spec
 CONSTANTS MaxOps = 4  Dev = {}
 INVARIANT SelfConsistent
+INVARIANT NoPrivateEpk
 INVARIANT Export
 CHECK_DEADLOCK FALSE
